@@ -47,7 +47,7 @@ m = {
         "name": "vcheck",
         "path": "/verif/harness",
         "serves_properties": sorted(CHECKS),
-        "kind_free_text": "Go harness: runs the real library from /repo under generated workloads in child processes (one per build flavour or process variant: release, debug, race, -N, -N -l, asan, go1.26.8, GOARCH=386, release#coldconcN cold-concurrent processes); online reference-model monitors at the API boundary; race detector / checkptr / ASan / mprotect write trap as extra observers",
+        "kind_free_text": "Go harness: runs the real library from /repo under generated workloads in child processes (one per build flavour or process variant: release, debug (every property), race, -N, -N -l, asan, go1.26.8, GOARCH=386, release#coldconcN cold processes, release#orders, release#order); online reference-model monitors at the API boundary; race detector / checkptr / ASan / mprotect write trap as extra observers",
     }],
     "checks": checks,
     "notes": "Technique family: runtime monitoring and sanitizers. Exit 0 held on everything observed, 1 VIOLATION (replay file), 3 INCONCLUSIVE (never on the unchanged tree), 2 build failure. KNOWN_FINDINGS.txt lists fixed defects.",
